@@ -261,12 +261,14 @@ type rawRun struct {
 	silentLeft             int
 	dupForUna              map[uint32]int // duplicate ACKs delivered per sndUna value
 	lastRTOat              time.Duration
+	drain                  bool // stall mode: the application has started reading
+	maxUnread              int
 	hiRtx                  uint32 // highest sequence sent before the last timeout/recovery (RFC 6582 "recover")
 	haveHiRtx              bool
 	caps                   []string
 }
 
-type pendingAck struct {
+type pendingAck struct { // (fields drain/maxUnread live in rawRun)
 	due  time.Duration
 	send func()
 	name string
@@ -570,7 +572,7 @@ func (x *rawRun) onStackFrame(d *Decoded) {
 		if lim := x.mssLimit(len(t.RawOpts)); n > lim {
 			x.fail("C04", "oversized-segment", "oversized-segment", "segment payload %d exceeds what the peer's MSS (%d) / MTU %d allow with %d option bytes (%d)", n, x.cfg.PeerMSS, x.cfg.MTU, len(t.RawOpts), lim)
 		}
-		if x.pmtu > 0 && len(x.sent) > x.ptbAt+1 {
+		if x.pmtu > 0 && d.F.Seq >= x.ptbAt {
 			hdr := 20
 			if x.cfg.V6 {
 				hdr = 40
@@ -724,7 +726,7 @@ func (x *rawRun) appCalls() []action {
 			_ = err
 		}})
 	}
-	if (st.State >= 4) && sk.Readable() && !x.eof && x.readErr == "" && x.cfg.Read == "eager" {
+	if (st.State >= 4) && sk.Readable() && !x.eof && x.readErr == "" && (x.cfg.Read == "eager" || (x.cfg.Read == "stall" && x.drain)) {
 		acts = append(acts, action{name: "S.read", do: x.doRead})
 	}
 	if x.cfg.Close == "shut" && len(x.chunks) == 0 && st.State == 4 && !x.shut {
@@ -826,7 +828,9 @@ func (x *rawRun) deliverMenu(d *Decoded, f *Frame) []action {
 	if x.dev('p') && x.cfg.PTB > 0 && !x.ptbSent && n > 0 && !x.cfg.V6 {
 		m = append(m, action{name: fmt.Sprintf("ICMP fragmentation-needed(mtu %d) for %s", x.cfg.PTB, name), cost: 1, do: func() {
 			x.ptbSent = true
-			x.ptbAt = len(x.sent)
+			x.r.w.mu.Lock()
+			x.ptbAt = len(x.r.w.All) // frames emitted from now on must respect the reported MTU
+			x.r.w.mu.Unlock()
 			q := f.Data
 			if len(q) > 28 {
 				q = q[:28]
@@ -903,12 +907,21 @@ func (x *rawRun) menu() []action {
 		}
 	case len(apps) > 0:
 		m = append(m, apps[0])
-	case len(x.pSegs) > 0 && x.established:
+	case len(x.pSegs) > 0 && x.established && !x.fits(x.pSegs[0]) && x.room() > 0:
+		s := x.pSegs[0]
+		k := x.room()
+		m = append(m, action{name: fmt.Sprintf("peer sends the %d bytes of [%d,+%d) that fit the advertised window", k, s[0], s[1]), do: func() {
+			x.pSegs[0] = [2]int{s[0] + k, s[1] - k}
+			x.peerSendData(s[0], k, false)
+		}})
+	case len(x.pSegs) > 0 && x.established && !x.fits(x.pSegs[0]) && x.cfg.Read == "stall" && !x.drain:
+		m = append(m, action{name: "peer is blocked by the advertised window; application starts reading", do: func() { x.drain = true }})
+	case len(x.pSegs) > 0 && x.established && x.fits(x.pSegs[0]):
 		s := x.pSegs[0]
 		last := len(x.pSegs) == 1
 		m = append(m, action{name: fmt.Sprintf("peer sends data [%d,+%d)", s[0], s[1]), do: func() { x.pSegs = x.pSegs[1:]; x.peerSendData(s[0], s[1], false) }})
 		if x.dev('o') {
-			if !last {
+			if !last && x.fits(x.pSegs[1]) {
 				nx := x.pSegs[1]
 				m = append(m, action{name: fmt.Sprintf("peer sends [%d,+%d) before [%d,+%d)", nx[0], nx[1], s[0], s[1]), cost: 1, do: func() {
 					x.pSegs[0], x.pSegs[1] = x.pSegs[1], x.pSegs[0]
@@ -953,7 +966,33 @@ func (x *rawRun) menu() []action {
 	return m
 }
 
+// fits: a conforming peer sends a segment only if it lies inside the window the stack has advertised.
+func (x *rawRun) fits(s [2]int) bool {
+	end := x.cfg.PeerISS + 1 + uint32(s[0]+s[1])
+	return x.haveSEdge && ref.SeqLEQ(end, x.sEdge)
+}
+
+// room: bytes of the next peer segment that fit the advertised window.
+func (x *rawRun) room() int {
+	if !x.haveSEdge || len(x.pSegs) == 0 {
+		return 0
+	}
+	start := x.cfg.PeerISS + 1 + uint32(x.pSegs[0][0])
+	if !ref.SeqLT(start, x.sEdge) {
+		return 0
+	}
+	return int(x.sEdge - start)
+}
+
 func (x *rawRun) afterStep() {
+	if x.has('w') && x.pAcked != 0 {
+		if un := int(x.pAcked-x.cfg.PeerISS-1) - len(x.got); un > x.maxUnread {
+			x.maxUnread = un
+		}
+		if x.cfg.RcvBuf > 0 && x.maxUnread > x.cfg.RcvBuf {
+			x.fail("C04", "window-not-closing", "window-not-closing", "the stack has accepted %d bytes the application has not read, more than its receive buffer of %d: the advertised window did not close", x.maxUnread, x.cfg.RcvBuf)
+		}
+	}
 	if x.r.MonErr != nil && x.has('m') {
 		x.fail("C06", "malformed-frame", "frame:"+keyOf(x.r.MonErr), "%v", x.r.MonErr)
 	}
@@ -1041,6 +1080,12 @@ func (x *rawRun) atEnd() {
 		ackedOff := int(x.pAcked - x.cfg.PeerISS - 1)
 		if x.pAcked != 0 && ackedOff > len(x.got) && ackedOff <= len(x.pData) {
 			x.fail("C04", "acked-not-delivered", "acked-not-delivered", "the stack acknowledged %d bytes of peer data but the application could read only %d", ackedOff, len(x.got))
+		}
+	}
+	if x.has('w') && len(x.pSegs) > 0 && x.readErr == "" && x.established {
+		st := tcp.VerifDump(x.ep)
+		if st.State == 4 {
+			x.fail("C04", "window-not-reopened", "window-not-reopened", "the peer still has %d segment(s) that do not fit the advertised window (edge +%d, next segment ends at +%d) although the application has read everything and the world is idle: the window never reopened", len(x.pSegs), x.sEdge-x.cfg.PeerISS-1, x.pSegs[0][0]+x.pSegs[0][1])
 		}
 	}
 	if x.has('s') && bytes.Contains(x.got, []byte("XXXXXXXX")) {
